@@ -341,6 +341,14 @@ func (v *parser_) parseCollection() (
 	case "Queue":
 		collection = col.Queue[any](notation).MakeFromSequence(sequence)
 	case "Set":
+		defer func() {
+			// Ordering the items may fail (e.g. they are nested too deeply to be ranked).
+			if e := recover(); e != nil {
+				var message = v.formatError(token)
+				message += fmt.Sprintf("The items cannot be ordered as a set: %v\n", e)
+				panic(message)
+			}
+		}()
 		collection = col.Set[any](notation).MakeFromSequence(sequence)
 	case "Stack":
 		collection = col.Stack[any](notation).MakeFromSequence(sequence)
